@@ -94,8 +94,8 @@ def check_faulted(ctx, sc, rules_desc, pre_arch, src_snap, r_backup, r_arch, r_r
                 continue
             c = scen.entry_content(e, dec["blocks"])
             want = src_bytes if (bid == newest and (sc["t0"] is None or bid > 0)) else old_bytes
-            if sc.get("prior_incomplete") and bid == 1 and bid != newest:
-                want = scen.tree_file_bytes(sc["tmid"])
+            if sc.get("prior_incomplete") and bid == 1 and (bid != newest or "b0001" in pre_arch.get("dirs", [])):
+                want = scen.tree_file_bytes(sc["tmid"])       # the interrupted earlier version (also when the faulted backup made no version at all)
             if isinstance(c, str):
                 ctx.oracle_fail("faults/dangling", f"band {bid} records {e['apath']} with a dangling reference ({c}) after faults {rules_desc}", small)
                 return
